@@ -13,6 +13,9 @@ func TestPoolFullAndPrelaunchedAgree(t *testing.T) {
 		{"Fa", "C", "Fa", "C", "Sa", "Fa"},
 		{"Fa", "Fa", "R", "Sa", "Sa", "Sa", "N", "Pa"},
 		{"La", "Lb", "Xs", "Xf", "Pa", "N", "Sb", "Fb", "Fb", "Za", "Zb"},
+		{"Fa", "Ta", "Ea", "Wa", "Ga", "Tb", "Eb", "Wb", "Gb"},
+		{"Fa", "Sa", "Fa!", "Sa", "Sa", "Sa", "La?", "Za~", "Ga!", "Pa!", "C?", "Xs~", "Xf!"},
+		{"Fa", "Fa", "Sa", "Sa", "Sa!", "Sa", "Ta~", "Wa?", "Ea!"},
 	} {
 		var prev string
 		for _, full := range []bool{true, false} {
